@@ -10,7 +10,9 @@ import Rbacx.Properties.C15
   is honest (a hit was stored under that key), whatever it evicts or expires.
   Named assumption `KeyFaithful`: equal cache keys ⇒ equal raw decisions (implied by injectivity of
   sha3-256 over the sorted policy JSON and of the canonical JSON of a JSON-valued env; probed by the
-  harness on near-duplicate pools on every run).
+  harness on near-duplicate pools on every run).  The serialiser half is no longer assumed: see
+  `Properties/C08Key.lean` (`c08_canon_json_injective`, `c08_key_injective`, and `c08_key_faithful`, which derives
+  `KeyFaithful` from the remaining, explicitly listed `KeyAssumptions`).
 -/
 namespace Rbacx.C08
 open Rbacx.CacheHist
